@@ -1,6 +1,13 @@
 """Single table of claimed checks; bin/mkmanifest renders MANIFEST.json from it."""
 
 CHECKS = {
+    "C05": dict(
+        level="exploration",
+        technique="TLA+ spec MSNum: the numeric tower as exact arithmetic on limb sequences (i32/i128/u8 ranges, promotion table, truncating division, sign-of-dividend remainder, two's-complement bit operations and shifts, IEEE-754 binary64 add/sub/mul/div/fmod/int->double with round-to-nearest-even by integer arithmetic); TLA+ generator GenNum enumerates operator x kind pair x boundary-value pairs; every case is executed by the real binary with run-time operands and its typed result (kind + exact bits) is judged by TLC (CheckNum)",
+        text="Exhaustive over the operator x kind x boundary-value matrix (7.7k cases quick, ~75k thorough): the promoted kind and the exact value (or the obligation to fail) come from the specification, the observation from the typed-print hook.",
+        note="MSNum was self-tested against an independent big-integer/IEEE reference on 9k cases (0 disagreements). Float results outside the normal range are out of model. Shifts/bitwise operators are pattern operations at the promoted width (only the amount has a range). A panic counts as a failure for this property.",
+        design="5/C05",
+    ),
     "C17": dict(
         level="exploration",
         technique="TLA+ generator GenFail (failure kind x position x call chain over function / method / list-callback activations x split into an imported module, BFS); TLA+ reference semantics MSLang tracks the stack of active functions (ghost `stack`, frozen into `ftrace` at the failure); replay on the real binary; TLC judge CheckLang demands banner + exit 1 + output prefix + failure class + a reported trace structurally equal to the model's activation list (+ file:line:col for assert / get)",
